@@ -65,6 +65,7 @@ def run(ctx, module="C03Trace"):
     thorough = ctx.tier == "thorough"
     ctx.mc("MC_FaceTopology", "MC_FaceTopology_thorough.cfg" if thorough else "MC_FaceTopology_quick.cfg")
     if thorough:
+        faces.unbounded_face_checks(ctx, ("2x1N2", "2x2N2"))
         for shape in ("3x1", "1x3", "2x1N3", "1x1"):
             ctx.mc("MC_FaceTopology", f"MC_FaceTopology_{shape}.cfg", workers=8)
     rng = random.Random(ctx.seed * 49979687 + 3)
